@@ -115,7 +115,7 @@ Lemma ext_put_qm v k : (1 <= k <= 8)%nat -> v < 18446744073709551616 ->
 Proof.
   intros Hk Hv.
   cases8 k;
-    unfold ext_put_fixed_quick_medium, ext_put_fixed;
+    unfold ext_put_fixed_quick_medium, split_ext_put_fixed;
     match goal with |- context [N.of_nat ?n] => let r := eval vm_compute in (N.of_nat n) in change (N.of_nat n) with r end;
     cbv beta iota zeta; rewrite ?u64_small by exact Hv; try reflexivity.
   - (* 2 *) cbn [le_bytes]. rewrite !land255. unfold shr. change (2 ^ 8) with 256. reflexivity.
@@ -133,7 +133,7 @@ Proof.
   assert (R : forall n, length l = n -> rd_le (pre ++ l ++ post) (Z.of_nat (length pre)) n = of_le l).
   { intros n <-. apply rd_le_mid. }
   cases8 k; intros Hl Hb;
-    unfold ext_get_quick_medium, ext_get;
+    unfold ext_get_quick_medium, split_ext_get;
     match goal with |- context [N.of_nat ?n] => let r := eval vm_compute in (N.of_nat n) in change (N.of_nat n) with r end;
     cbv beta iota zeta; try (rewrite R by exact Hl; reflexivity).
   - (* 2 *)
